@@ -682,3 +682,83 @@ def r_fill_word(ck, P, rid):
                     ck.violation(R, f.name, '%d-bit store for %d bpp' % (wbits, K), '%s at %d bpp stores a %d-bit value whose bit %d is %s, not filler bit %d: bits of the filler argument above the pixel (or a wrong replication) reach the destination' % (f.name, K, wbits, j, 'filler bit %d' % got[1] if isinstance(got, tuple) else 'unknown (two different bits combined)' if got is None else got, j % K), x.loc())
                 else:
                     ck.ok(R, where)
+
+
+def r19_9_delegated_rectangle(ck, P):
+    """T-GRD: a fill/blt entry point that hands its rectangle on to a per-depth helper passes the coordinates through unchanged; where it
+    rescales one (x >> k: k pixels per word), the low k bits it drops are known to be zero on that path — individually, for every
+    coordinate that is rescaled."""
+    R = ck.rule('C19-R9', 'wherever a function stored in imp->fill or imp->blt hands its rectangle on to a helper together with the bits pointer, each coordinate argument is either the caller\'s own parameter or that parameter shifted right by k under a guard that establishes, for this parameter by itself, that its low k bits are zero ((p | ...) & mask == 0 or p & mask == 0): a test on the sum of two coordinates does not establish it', floor=25)
+    slots = slot_functions(P)
+    seen = set()
+    for slot in ('fill', 'blt'):
+        for un, f in sorted(slots[slot].items()):
+            if f in seen:
+                continue
+            seen.add(f)
+            pp = set(_ptr_params(f))
+            for c in f.calls():
+                g = P.resolve(f, c.callee) if c.callee else None
+                if g is None or g.unit is not f.unit:
+                    continue
+                if not any(any(r[0] == 'arg' and r[1] in pp for r in common.roots(f, a)) for a in c.a if a and a[0] in ('v', 'a')):
+                    continue
+                ck.saw(f)
+                bad = None; n = 0
+                for k_, a in enumerate(c.a):
+                    x = f.v(a)
+                    while x is not None and x.op in ('sext', 'zext', 'trunc'):
+                        a = x.a[0]; x = f.v(a)
+                    if x is None or x.op not in ('ashr', 'lshr', 'sdiv', 'udiv') or x.a[1][0] != 'c':
+                        continue
+                    src = x.a[0]; y = f.v(src)
+                    while y is not None and y.op in ('sext', 'zext', 'trunc'):
+                        src = y.a[0]; y = f.v(src)
+                    if src[0] != 'a':
+                        continue
+                    kk = int(x.a[1][1]); lost = ((1 << kk) - 1) if x.op in ('ashr', 'lshr') else None
+                    if lost is None:
+                        lost = kk - 1 if kk & (kk - 1) == 0 else None
+                    if not lost:
+                        continue
+                    n += 1
+                    # guards on the way to the call
+                    ok = False
+                    def or_tree_has(o, d=0):
+                        if d > 8:
+                            return False
+                        z = f.v(o)
+                        if o == src:
+                            return True
+                        if z is None:
+                            return False
+                        if z.op in ('sext', 'zext', 'trunc'):
+                            return or_tree_has(z.a[0], d + 1)
+                        if z.op == 'or':
+                            return or_tree_has(z.a[0], d + 1) or or_tree_has(z.a[1], d + 1)
+                        return False
+                    for t_, s in f.guard_edges(c.bb.id):
+                        cc = f.v(t_.a[0]) if t_.a else None
+                        if cc is None or cc.op != 'icmp' or cc.d['p'] not in ('eq', 'ne'):
+                            continue
+                        taken = t_.d['succ'][0] == s
+                        if (cc.d['p'] == 'eq') != taken:
+                            continue
+                        zero = [o for o in cc.a if o[0] == 'c' and int(o[1]) == 0]
+                        other = [o for o in cc.a if not (o[0] == 'c' and int(o[1]) == 0)]
+                        if not zero or len(other) != 1:
+                            continue
+                        m = f.v(other[0])
+                        if m is None or m.op != 'and':
+                            continue
+                        for e, mk in ((m.a[0], m.a[1]), (m.a[1], m.a[0])):
+                            if mk[0] == 'c' and int(mk[1]) & lost == lost and or_tree_has(e):
+                                ok = True
+                    if not ok:
+                        bad = (k_, src, kk)
+                where = '%s -> %s at %s' % (f.name, g.name, c.loc())
+                if bad:
+                    k_, src, kk = bad
+                    ck.violation(R, f.name, 'call of %s' % g.name, '%s passes %s >> %d to %s as argument %d but no guard on that path establishes that the low %d bit(s) of %s itself are zero: for the other values the rectangle handed on starts before / ends before the one requested, so pixels outside it are written and pixels inside it are not, while success is returned' % (f.name, f.params[src[1]][0] or 'parameter %d' % src[1], kk, g.name, k_, kk, f.params[src[1]][0] or 'the parameter'), c.loc())
+                else:
+                    ck.ok(R, where, '%d rescaled coordinate(s), each guarded' % n if n else 'coordinates handed on unchanged')
